@@ -4,7 +4,7 @@ CONSTANTS
   Json <- JsonTbl
   Literal <- LitTbl
   DecodeFirst = TRUE
-  HandsOutCopy = TRUE
+  HandsOutCopy = FALSE
   MaxCalls = 3
 INVARIANT CarrierFree
 INVARIANT LoadAgrees
